@@ -17,7 +17,7 @@ RULE = (
     "'small' (uniform ranks 0..k), 'const' (all-equal rank r incl. the maximum, optionally one zero register), 'lc_boundary' (V zero "
     "registers = the integers around m*exp(-threshold/m), d in -2..+2, rest random small ranks), 'raw_boundary' (no zero register, "
     "a registers of rank 2 and m-a of rank 3 with a = the integers around the solution of raw==5m, d in -2..+2). Oracle: numpy/"
-    "integer model of exactly the stated estimator with the shipped tables indexed by p-7; |query-model| <= 1e-9*max(1,model); a case "
+    "integer model of exactly the stated estimator (evaluated for the assigned array and again after merging a second array into the already-queried sketch) with the shipped tables indexed by p-7; |query-model| <= 1e-9*max(1,model); a case "
     "within 1e-9 relative of a branch boundary is accepted on either branch (counted). Table facts asserted per p: raw_estimate "
     "strictly increasing, raw_estimate[0]-bias[0]==threshold to 1e-6. Non-trivial: the array is not all-zero and not decided by "
     "linear counting alone, or is a boundary array. Distinct = distinct (p, kind, parameters)."
@@ -96,6 +96,18 @@ def check_case(case, stats=None):
         raise Violation(f"p={p} kind={case['kind']} branch={branch}: query()={got!r}, HLL++ model={want!r} (zeros={int((reg == 0).sum())})", f"estimator-{branch}")
     if not np.array_equal(h.registers, reg):
         raise Violation("query() modified the registers", "query-mutates")
+    # the estimate must follow the register state when it changes under a sketch that was already
+    # queried: merge another sketch in (element-wise max) and compare with the model again
+    other = HyperLogLog(p, 0)
+    other.registers[:] = np.roll(reg, 1 + case["rs"] % 7) if case["kind"] != "const" else np.minimum(reg + (np.arange(len(reg)) % 3 == 0), 64 - p + 1).astype(np.uint8)
+    merged = np.maximum(reg, other.registers)
+    sut(h.merge, other)
+    if not np.array_equal(h.registers, merged):
+        raise Violation(f"p={p}: registers after merge are not the element-wise maximum", "merge-registers")
+    got2 = float(sut(h.query))
+    want2, branch2, margin2 = models.hllpp_estimate(merged, p, thr, raw_estimate[p - 7], bias_data[p - 7])
+    if abs(got2 - want2) > 1e-9 * max(1.0, abs(want2)) and margin2 >= 1e-9:
+        raise Violation(f"p={p} kind={case['kind']} after merging a second register state into a queried sketch: query()={got2!r}, HLL++ model of the merged registers={want2!r} (first query returned {got!r})", f"estimator-after-merge-{branch2}")
     return branch, reg
 
 
